@@ -257,6 +257,20 @@ def _k3(run: Run, w: World) -> None:
                         if loop_passes(f.cfg, ln, lambda x, name=name: any(isinstance(cc.func, ast.Attribute) and cc.func.attr == "append" and dotted(cc.func.value) == name for cc in node_calls(x))) \
                                 and not any(isinstance(x, (ast.Break, ast.Return, ast.Continue)) for s in ln.ast.body for x in ast.walk(s)):
                             fills.append(ln)
+        # every appended component is (derived from) the element itself: a constant such as 0 matches every dimension
+        vacuous = None
+        for ln in fills:
+            lt = {x.id for x in ast.walk(ln.ast.target) if isinstance(x, ast.Name)}
+            for x in f.cfg.stmt_nodes():
+                if any(t is ln for t, _ in x.lexical_tests):
+                    for cc in node_calls(x):
+                        if isinstance(cc.func, ast.Attribute) and cc.func.attr == "append" and cc.args \
+                                and not (lt & {y.id for y in ast.walk(cc.args[0]) if isinstance(y, ast.Name)}):
+                            vacuous = cc
+        if vacuous is not None:
+            detail = (f"`{norm(vacuous, 60)}` puts a value that does not come from the argument into the list of checked components: "
+                      f"that element of the argument is never dimension-checked (a zero matches every dimension)")
+            continue
         comp = isinstance(it, ast.Call) and any(isinstance(a, (ast.ListComp, ast.GeneratorExp)) for a in ast.walk(it))
         if not fills and not comp:
             # components may also be built by a comprehension over all values
@@ -528,6 +542,12 @@ def _k7(run: Run, w: World) -> None:
         si = f.slice(lp, lp.ast.iter)
         if has_subscript(si.exprs) or "components" not in si.params:
             detail = f"the loop iterates {norm(lp.ast.iter, 50)}, not all components"
+            continue
+        zips = [x for e in [lp.ast.iter] for x in ast.walk(e) if isinstance(x, ast.Call) and dotted(x.func) == "zip" and len(x.args) >= 2
+                and not any(k.arg == "strict" and isinstance(k.value, ast.Constant) and k.value.value is True for k in x.keywords)]
+        if zips:
+            detail = (f"the loop iterates `{norm(lp.ast.iter, 60)}`: zip stops at the shortest sequence, so components beyond it are neither checked nor kept "
+                      f"(a vector with more components than that sequence loses them silently)")
             continue
         tnames = {x.id for x in ast.walk(lp.ast.target) if isinstance(x, ast.Name)}
         if not (isinstance(c.args[0], ast.Name) and c.args[0].id in tnames):
